@@ -106,6 +106,7 @@ class Stack:
         # receive context of this stack is then blocked meanwhile (further frames for it queue up), everything else goes on
         self.tx_all_contexts = tx_all_contexts
         self._prequeue = []           # (time at which it reaches the bus, identifier) of frames waiting in tx_pre
+        self._pre_i = 0
         self.rx_hooks = []            # callables(listener name) run inside subscriber callbacks (application reacting to a message)
         self.deliveries = []      # (t, listener, prio, pgn, sa, bytes)
         self.requests = []        # (t, ca_name, src, dest, pgn)
@@ -130,13 +131,21 @@ class Stack:
     def _send(self, can_id, extended_id, data, fd_format=False):
         f = simbus.mkframe(can_id, list(data), ext=extended_id, fd=fd_format)
         sim = self.world.sim
-        if self.tx_pre and (sim.current is not None or self.tx_all_contexts):
+        pre = self.tx_pre
+        if isinstance(pre, (list, tuple)):
+            # (a list is used cyclically, one value per blocking-capable write: the transmit queue is not equally full every time)
+            if sim.current is not None or self.tx_all_contexts:
+                pre = pre[self._pre_i % len(pre)] if pre else 0.0
+                self._pre_i += 1
+            else:
+                pre = 0.0
+        if pre and (sim.current is not None or self.tx_all_contexts):
             # the frame waits in the node's transmit path; a frame written meanwhile by another context of the same node may
             # overtake it only if it wins arbitration (lower identifier) - otherwise it queues behind it
-            item = (sim.now + self.tx_pre, can_id)
+            item = (sim.now + pre, can_id)
             self._prequeue.append(item)
             try:
-                sk.exact_sleep(self.tx_pre)
+                sk.exact_sleep(pre)
             finally:
                 self._prequeue.remove(item)
         elif self._prequeue:
